@@ -88,8 +88,12 @@ func (g *Gen) price() string {
 	if g.r.P(g.bad()) {
 		return g.r.Pick("0", "nil", "-1000000000000000000")
 	}
+	if g.r.P(15) {
+		return ulpPrices[g.r.N(len(ulpPrices))]
+	}
 	return pricePool[g.r.N(len(pricePool))]
 }
+
 // prices a few units of the 18th decimal away from a round value: worth/price then lands within 1e-18 of an
 // integer, where truncation and rounding differ
 var ulpPrices = []string{
@@ -384,6 +388,19 @@ func (g *Gen) bid() Op {
 			w := math.LegacyNewDecFromInt(qty()).Mul(p).Ceil().TruncateInt().AddRaw(g.r.PickI(0, 0, 1, -1, 3))
 			if g.r.P(8) {
 				w = math.NewInt(1)
+			}
+			if g.r.P(18) {
+				// worth/price within 1e-18 of a small integer: price a few ulps off a round value, worth = floor or ceil of k*price
+				ps = ulpPrices[g.r.N(len(ulpPrices))]
+				p = pDec(ps)
+				k := int64(1 + g.r.N(1+int(p.TruncateInt64()/2)%40))
+				w = p.MulInt64(k).TruncateInt()
+				if g.r.P(35) {
+					w = p.MulInt64(k).Ceil().TruncateInt()
+				}
+				if !w.IsPositive() {
+					w = math.NewInt(1)
+				}
 			}
 			if !w.IsPositive() {
 				w = math.NewInt(1)
